@@ -22,15 +22,28 @@ structure ABuf where
   numChunks : Nat
   deriving Repr, DecidableEq
 
+/-- `isize::MAX`: `Vec::with_capacity(n)` of 64-byte elements panics ("capacity overflow") when `n * 64` exceeds it -/
+def isizeMax : Nat := 2 ^ 63 - 1
+
+/-- the request can be allocated at all: its chunks occupy at most `isize::MAX` bytes -/
+def fits (sizeT len : Nat) : Prop := (len / (64 / sizeT) + 1) * 64 ≤ isizeMax
+
+instance (sizeT len : Nat) : Decidable (fits sizeT len) := by unfold fits; exact inferInstance
+
 /-- `AlignedBuffer::<T>::zeroed(len)` as a function of `size_of::<T>()`:
 `assert_eq!(64 % size_of::<T>(), 0)` (a remainder by zero panics for a zero-sized type),
-`num_per_chunk = 64 / size`, `num_chunks = len / num_per_chunk + 1`, `allocated_size = num_per_chunk * buffer.len()`. -/
+`num_per_chunk = 64 / size`, `num_chunks = (len / num_per_chunk).checked_add(1).expect(…)` (since the fix 2309454; before it
+`+ 1` wrapped to 0 for `len = usize::MAX`, `size = 64` when overflow checks are off), `Vec::with_capacity(num_chunks)`
+(panics with "capacity overflow" beyond `isize::MAX` bytes), `allocated_size = num_per_chunk * buffer.len()`.
+That the allocator then delivers the memory is trusted (an allocation failure aborts the process; it is not a panic). -/
 def zeroed (sizeT len : Nat) : Exec ABuf := do
   let r ← umod chunkBytes sizeT
   assertEq r 0
   let numPerChunk ← udiv chunkBytes sizeT
   let q ← udiv len numPerChunk
+  if usizeMod ≤ q + 1 then throw Fault.panic
   let numChunks := q + 1
+  if isizeMax < numChunks * chunkBytes then throw Fault.panic
   pure { len := len, allocatedSize := numPerChunk * numChunks, numChunks := numChunks }
 
 /-- bytes of backing storage -/
